@@ -350,9 +350,27 @@ def gen(rng: random.Random, tier: str):
         for _ in range(nr):
             n = rng.randint(2, 8)
             edges = []
-            for c in range(1, n):
-                ps = rng.sample(range(c), min(c, rng.choice([1, 1, 2, 3])))
-                edges += [[p, c] for p in sorted(ps)]
+            shape = rng.random()
+            if shape < 0.25:
+                # zig-zag a -> c <- b -> x <- z ...: several roots, the component is only found by alternating
+                # between parents and children (a copy that walks "descendants of the ancestors" once misses part of it)
+                n = rng.randint(4, 9)
+                order = list(range(n)); rng.shuffle(order)
+                for i in range(n - 1):
+                    a, b = order[i], order[i + 1]
+                    edges.append([a, b] if i % 2 == 0 else [b, a])
+                for _ in range(rng.choice([0, 0, 1, 2])):
+                    a, b = rng.sample(order, 2)
+                    lo, hi = (a, b) if order.index(a) % 2 == 0 else (b, a)
+                    if order.index(lo) % 2 == 0 and order.index(hi) % 2 == 1 and [lo, hi] not in edges:
+                        edges.append([lo, hi])
+            else:
+                for c in range(1, n):
+                    # some nodes start without a parent among the earlier ones (several roots); they are tied to the
+                    # rest through later children
+                    k = rng.choice([0, 1, 1, 2, 3]) if shape < 0.7 else rng.choice([1, 1, 2, 3])
+                    ps = rng.sample(range(c), min(c, k))
+                    edges += [[p, c] for p in sorted(ps)]
             o = {"n": n, "edges": edges, "attrs": [rand_attrs(rng) for _ in range(n)]}
             cases.append(mk(fn, ("d", {}, []), rng.randrange(n), "/", o, rand_hist(rng, n, sides=("r",), k=rng.randint(1, 5)), ("random", "dag", "oracle-only")))
     return cases
@@ -502,7 +520,8 @@ def call(d, root, nodes):
             elif fn == "hprint_tree":
                 bigtree.hprint_tree(start, max_depth=md)
             elif fn == "yield_tree":
-                list(bigtree.yield_tree(start, max_depth=md, style=o["style"]))
+                # the nodes yield_tree hands out belong to the copy it renders, never to the input
+                other = [t[2] for t in list(bigtree.yield_tree(start, max_depth=md, style=o["style"]))]
             elif fn == "hyield_tree":
                 list(bigtree.hyield_tree(start, max_depth=md))
             elif fn == "show":
